@@ -139,6 +139,151 @@ def run(ctx):
     for db, E in dbs.values():
         try: db.disconnect()
         except Exception: pass
+    run_strings(ctx)
+
+
+# ---------------------------------------------------------------- string indexing / slicing: per-dialect ASTs on the C25 evaluator
+
+DIALECT_NAME = {'sqlite': 'SQLite', 'postgres': 'PostgreSQL', 'mysql': 'MySQL', 'oracle': 'Oracle'}
+
+
+class _RecBuilder(object):
+    """`builder(sql)` returns the AST it is given: records what the dialect's real STRING_SLICE builder method expands to"""
+    def __init__(self, dialect): self.dialect = dialect
+    def __call__(self, sql): return sql
+
+
+def _tolist(x):
+    if isinstance(x, (tuple, list)): return [_tolist(i) for i in x]
+    return x
+
+
+def expand_ast(db, node):
+    """replace every STRING_SLICE node by what the dialect's real builder makes of it; COLUMN / PARAM to the opaque 2-element form"""
+    if not isinstance(node, (list, tuple)): return node
+    if node and node[0] == 'COLUMN': return ['COLUMN', '%s.%s' % (node[1], str(node[2]).lower())]
+    if node and node[0] == 'PARAM':
+        key = node[1]
+        return ['PARAM', str(key[0][1]) if isinstance(key, (list, tuple)) and isinstance(key[0], (list, tuple)) else str(key)]
+    if node and node[0] == 'STRING_SLICE':
+        cls = db.provider.sqlbuilder_cls
+        r = _tolist(cls.STRING_SLICE(_RecBuilder(db.provider.dialect), node[1], node[2], node[3]))
+        if db.provider.dialect == 'SQLite':
+            if len(r) == 7 and r[0] == 'py_string_slice(': r = ['PY_STRING_SLICE', r[1], r[3], r[5]]
+            else: return ['UNEXPECTED', r]
+        return [expand_ast(db, i) for i in r]
+    return [expand_ast(db, i) for i in node]
+
+
+def guard_class(dialect, s, a_kind, b_kind, i, j):
+    """cases outside the proved guards of C25 (suspected dialect defects, unconfirmable offline): not C02 violations"""
+    n = len(s); i0 = 0 if i is None else i
+    if dialect == 'PostgreSQL':
+        if a_kind in 'ocp' and b_kind in 'cp' and j is not None and ((i0 >= 0 and j >= 0) or (i0 < 0 and j < 0)) and j < i0:
+            return 'PostgreSQL:negative-substr-length'
+        return None
+    if dialect in ('MySQL', 'Oracle'):
+        if i0 < -n: return dialect + ':start<-len(s)'
+        if i0 < 0 and j is not None and 0 <= j < n: return dialect + ':negative-start,non-negative-stop<len(s)'
+        if dialect == 'MySQL' and len(s.encode('utf-8')) != n: return 'MySQL:LENGTH()-counts-bytes'
+    return None
+
+
+def run_strings(ctx):
+    """`w.text[i]`, `w.text[a:b]`, `len(w.text[a:b])` with constant, parameter and EXPRESSION operands: the AST each dialect's real
+    translator + builder emits, evaluated by the C25 dialect evaluator (Model/SqlStr.lean, driver op `eval`) on random rows with
+    negative / zero / out-of-range positions; the dialects must agree with each other and with Python"""
+    from pony.orm import Database, Required, Optional, PrimaryKey
+    rng = ctx.rng
+    ponyutil.add_stubs()
+    from pony.orm.tests.testutils import TestDatabase
+    dbs = {}
+    for prov in DIALECT_NAME:
+        db = Database() if prov == 'sqlite' else TestDatabase()
+        class W(db.Entity):
+            id = PrimaryKey(int)
+            text = Required(str, autostrip=False)
+            pos = Required(int)
+            k = Required(int)
+        db.bind(prov, ':memory:' if prov != 'oracle' else 'user/pwd@host')
+        db.generate_mapping(create_tables=(prov == 'sqlite'), check_tables=False) if prov == 'sqlite' else db.generate_mapping(check_tables=False)
+        dbs[prov] = (db, W)
+    texts = ['a', 'ab', 'Ann', 'abcdef', 'xyz', 'q', 'hello world']
+    rows = []
+    for i in range(ctx.scale(12, 40)):
+        t = rng.choice(texts)
+        rows.append({'id': i + 1, 'text': t, 'pos': rng.choice([0, 1, 2, -1, -2, -len(t), len(t) - 1, len(t), -len(t) - 1, 3, -3, 7]), 'k': rng.choice([0, 1, 2, 4, -1, -2, 9])})
+    # operand shapes: (source, kind, python value)
+    def operands():
+        c = rng.choice([0, 1, 2, 3, 5])
+        pv = rng.choice([-3, -2, -1, 0, 1, 2, 4])
+        return [(str(c), 'c', lambda r: c), ('pv', 'p', lambda r: pv), ('w.pos', 'e', lambda r: r['pos']), ('w.k', 'e', lambda r: r['k']),
+                ('w.pos + 1', 'e', lambda r: r['pos'] + 1), ('w.pos - w.k', 'e', lambda r: r['pos'] - r['k']), ('len(w.text) - 1', 'e', lambda r: len(r['text']) - 1),
+                ('len(w.text) - w.k', 'e', lambda r: len(r['text']) - r['k'])], pv
+    reqs, meta = [], []
+    for _ in range(ctx.scale(60, 600)):
+        ops, pv = operands()
+        shape = rng.choice(['index', 'index', 'slice', 'slice', 'start', 'stop', 'len-slice'])
+        a = rng.choice(ops); b = rng.choice(ops)
+        if shape == 'index': src_ = 'w.text[%s]' % a[0]; pyf = lambda r, a=a: r['text'][a[2](r)]; A, B = a, None
+        elif shape == 'slice': src_ = 'w.text[%s:%s]' % (a[0], b[0]); pyf = lambda r, a=a, b=b: r['text'][a[2](r):b[2](r)]; A, B = a, b
+        elif shape == 'start': src_ = 'w.text[%s:]' % a[0]; pyf = lambda r, a=a: r['text'][a[2](r):]; A, B = a, ('', 'o', lambda r: None)
+        elif shape == 'stop': src_ = 'w.text[:%s]' % b[0]; pyf = lambda r, b=b: r['text'][:b[2](r)]; A, B = ('', 'o', lambda r: None), b
+        else: src_ = 'len(w.text[%s:%s])' % (a[0], b[0]); pyf = lambda r, a=a, b=b: len(r['text'][a[2](r):b[2](r)]); A, B = a, b
+        ctx.count('strings:shape:' + shape); ctx.count('strings:operands:%s%s' % (A[1], B[1] if B else ''))
+        for prov, (db, W) in dbs.items():
+            ctx.case(['strings', prov, src_], kind='strings:' + prov)
+            try:
+                with db_session:
+                    q = select('(w.id, %s) for w in W' % src_, {'W': W, 'pv': pv, 'len': len})
+                    ast_ = expand_ast(db, q._translator.expr_columns[1])
+            except Exception as ex:
+                ctx.count('strings:%s:raises:%s' % (prov, type(ex).__name__)); continue
+            for r in rows:
+                reqs.append({'op': 'streval', 'dialect': DIALECT_NAME[prov], 'ast': ast_, 'cols': {'w.text': r['text'], 'w.pos': r['pos'], 'w.k': r['k']}, 'params': {'pv': pv}})
+                meta.append((src_, shape, prov, r, pyf, A, B, pv))
+    if not ctx.driver.ok: return
+    outs = None
+    for attempt in range(3):
+        try: outs = ctx.driver('C02', reqs); break
+        except Exception as ex: last = ex
+    if outs is None:
+        ctx.note('C25 evaluator unavailable (%s): string index/slice stream skipped' % type(last).__name__); return
+    groups = {}
+    for m, out in zip(meta, outs):
+        groups.setdefault((m[0], m[3]['id'], m[7]), []).append((m, out))
+    for (src_, rid, pv), items in groups.items():
+        m0 = items[0][0]; r = m0[3]; shape = m0[1]; A, B = m0[5], m0[6]
+        try: py = m0[4](r)
+        except IndexError: py = 'IndexError'
+        i = A[2](r); j = B[2](r) if B else None
+        res = {}
+        for m, out in items:
+            prov = m[2]
+            if 'driver_error' in out:
+                ctx.count('strings:node-outside-evaluator:' + prov)
+                if len(ctx.notes) < 3: ctx.note('C25 evaluator: %s' % str(out)[:200])
+                continue
+            if shape != 'index' and guard_class(DIALECT_NAME[prov], r['text'], A[1], B[1] if B else 'o', i, j):
+                ctx.count('strings:outside-C25-guard:' + prov); continue
+            if shape == 'index' and DIALECT_NAME[prov] in ('MySQL', 'Oracle') and i is not None and i < -len(r['text']):
+                ctx.count('strings:outside-C25-guard:' + prov); continue
+            res[prov] = out.get('ok') if 'ok' in out else 'error:' + str(out.get('error'))
+            if prov == 'oracle' and res[prov] is None: res[prov] = 0 if shape == 'len-slice' else ''     # Oracle: '' is NULL
+        if not res: continue
+        ctx.count('strings:compared')
+        # known: a constant / parameter stop -1 with start 0 or omitted is the 'stop omitted' sentinel (slice-stop-const-minus-one)
+        sentinel = shape != 'index' and B is not None and B[1] in 'cp' and j == -1 and (A[1] == 'o' or (A[1] in 'cp' and i == 0))
+        vals = set(json.dumps(v) for v in res.values())
+        if len(vals) > 1:
+            ctx.violation('the dialects compute different values for the same string expression on the same row (real ASTs, modelled backends)',
+                          {'query': 'select((w.id, %s) for w in W)' % src_, 'row': r, 'pv': pv}, observed=res, expected={'python': py}, key='strings-dialects:%s' % src_)
+        elif py != 'IndexError' and not sentinel and json.dumps(py) not in vals:
+            ctx.violation('every dialect computes a value different from Python for a string expression', {'query': 'select((w.id, %s) for w in W)' % src_, 'row': r, 'pv': pv},
+                          observed=res, expected={'python': py}, key='strings-python:%s' % src_)
+    for db, W in dbs.values():
+        try: db.disconnect()
+        except Exception: pass
 
 
 def _nodes(ast):
